@@ -70,6 +70,10 @@ def register(reg, ctx):
         ensures=["self._stddev_waist2 == self._stddev_waist**2", "self._stddev_waist == value"], inline=['_cache_constants'])
     for cls in ("ConstantBivariateGaussian3D", "TrivariateGaussian3D", "GaussianBeamModel"):
         setter_contracts(reg, tree, MF, cls, "_cache_constants", sorts={"value": "real"})
+        # ... and the constructor establishes it (placeholder values assigned before the setters run must not survive un-rebuilt)
+        _common.constructor_contract(reg, PROP, tree, MF, cls, "_cache_constants",
+                                     externals={'Function3D.__init__': {'kind': 'pure', 'result': 'none', 'doc': 'raysect Function3D.__init__ (no state)'}},
+                                     sorts={k: "real" for k in ("stddev_x", "stddev_y", "stddev_z", "mean_z", "wavelength", "waist_z", "stddev_waist")})
 
     # ------------------------------------------------------------------ laser profile models
     SEDF = {'LaserProfile.set_energy_density_function': {'kind': 'logged', 'result': 'none', 'override': True, 'label': 'set_energy_density_function',
@@ -149,6 +153,9 @@ def register(reg, ctx):
     # ------------------------------------------------------------------ laser spectra
     for cls, file in (("LaserSpectrum", LS), ("ConstantSpectrum", MS), ("GaussianSpectrum", MS)):
         setter_contracts(reg, tree, file, cls, "_update_cache", sorts={"value": "real"})
+        _common.constructor_contract(reg, PROP, tree, file, cls, "_update_cache",
+                                     sorts={"min_wavelength": "real", "max_wavelength": "real", "bins": "int", "mean": "real", "stddev": "real"},
+                                     externals={'Function1D.__init__': {'kind': 'pure', 'result': 'none', 'doc': 'raysect Function1D.__init__'}})
     for acc, attr in (("get_min_wavelenth", "_min_wavelength"), ("get_max_wavelenth", "_max_wavelength"), ("get_spectral_bins", "_bins"),
                       ("get_delta_wavelength", "_delta_wavelength")):
         reg.contract(LS, "LaserSpectrum." + acc, PROP, ensures=[("returns_named_attribute", "result == self.%s" % attr)], modifies=[])
@@ -242,6 +249,24 @@ b = GaussianSpectrum(1000.0, 1100.0, 50, **dict(dict(mean=1050.0, stddev=5.0), *
 pa, pb = np.array(a.power_spectral_density), np.array(b.power_spectral_density)
 print(json.dumps({"max_abs_difference_of_binned_psd": float(np.abs(pa - pb).max()), "equal": bool(np.allclose(pa, pb))}))
 ''' % (which, 1060.0 if which == 'mean' else 8.0, which, 1060.0 if which == 'mean' else 8.0)
+    elif 'ConstantBivariateGaussian3D' in o.name or 'TrivariateGaussian3D' in o.name or 'GaussianBeamModel' in o.name:
+        scen = '''
+from cherab.core.model.laser.math_functions import ConstantBivariateGaussian3D, TrivariateGaussian3D, GaussianBeamModel
+bad = []
+def same(a, b): return abs(a - b) <= 1e-12 * max(abs(a), abs(b), 1e-300)
+for sx in (1.0, 0.5, 2.0):
+    for sy in (1.0, 0.3):
+        f = ConstantBivariateGaussian3D(sx, sy)
+        g = ConstantBivariateGaussian3D(sx * 3.0, sy * 2.0); g.stddev_x = sx; g.stddev_y = sy
+        if not same(f(0.1, 0.2, 0.0), g(0.1, 0.2, 0.0)):
+            bad.append({"class": "ConstantBivariateGaussian3D", "stddev_x": sx, "stddev_y": sy, "constructed": f(0.1, 0.2, 0.0), "reached_through_setters": g(0.1, 0.2, 0.0)})
+        for sz in (1.0, 0.7):
+            f = TrivariateGaussian3D(0.0, sx, sy, sz)
+            g = TrivariateGaussian3D(0.5, sx * 3.0, sy * 2.0, sz * 5.0); g.mean_z = 0.0; g.stddev_x = sx; g.stddev_y = sy; g.stddev_z = sz
+            if not same(f(0.1, 0.2, 0.3), g(0.1, 0.2, 0.3)):
+                bad.append({"class": "TrivariateGaussian3D", "stddev": [sx, sy, sz], "constructed": f(0.1, 0.2, 0.3), "reached_through_setters": g(0.1, 0.2, 0.3)})
+print(json.dumps({"bad": bad[:3], "equal": not bad}))
+'''
     elif 'TrivariateGaussian' in o.name:
         scen = '''
 from cherab.core.model.laser import TrivariateGaussian
